@@ -196,6 +196,10 @@ func (ex *Exec) callBuiltin(st *State, c *ssa.Call, b *ssa.Builtin, a []SV) []*S
 	case "ssa:deferstack":
 		st.vals[c] = SV{K: KUnit}
 	case "append":
+		if ex.isInit {
+			// keep the initialiser single-path: the variable it feeds stays unknown (and is reported)
+			panic(unsupported("append in a package-level initialiser"))
+		}
 		return ex.callAppend(st, c, a)
 	case "copy":
 		// copy(dst, src []byte): only whole-buffer byte copies are modelled
